@@ -330,6 +330,35 @@ def filebacked_case(args):
     return {"bad": bad, "dev": dev}
 
 
+def revival_case(args):
+    """a bath whose correlation function is negligible at short distances and comes back later (gap / delayed
+    feedback), given as CustomCorrelations; TEMPO with full memory vs PT-TEMPO and vs TEMPO with dkmax = number of steps"""
+    cp, delay, eps = args
+    o = coupling(cp)
+    d = o.shape[0]
+    n, dt = 12, 0.1
+    corr = oq.CustomCorrelations(lambda t: 6.0 * np.exp(-((t - delay) / 0.08) ** 2) * np.exp(-0.7j * t))
+    bath = oq.Bath(o, corr)
+    sysm = system("H", d)
+    rho0 = initial_state(d)
+    bad = []
+    try:
+        prm = C.make_params(dt, eps)
+        _, ts = C.run_tempo(sysm, bath, prm, rho0, 0.0, n, False)
+        pt = C.run_pt(bath, prm, 0.0, n, False)
+        _, ps = C.run_pt_dynamics(sysm, pt, rho0, 0.0)
+        _, ks = C.run_tempo(sysm, bath, C.make_params(dt, eps, dkmax=n), rho0, 0.0, n, False)
+        _, fs = C.run_pt_dynamics(sysm, None, rho0, 0.0, num_steps=n, dt=dt)
+    except Exception as ex:  # noqa
+        return {"bad": [(f"revival|{cp}|exception:{type(ex).__name__}", str(ex)[:160])], "eff": 0.0}
+    for name, other in (("pttempo", ps), ("tempo-with-dkmax=n", ks)):
+        dev = float(np.abs(ts - other).max()) if ts.shape == other.shape else 9.9
+        if dev > tolerance(eps, n):
+            bad.append((f"revival|{cp}|tempo(full-memory)-vs-{name}-differ",
+                        f"{cp}: correlation function revives at t={delay}: TEMPO with dkmax=None and {name} differ by {dev:.2e}"))
+    return {"bad": bad, "eff": float(np.abs(ts - fs).max())}
+
+
 def pulse_case(args):
     cp, start, k, eps = args[:4]
     late = bool(args[4]) if len(args) > 4 else False
@@ -374,7 +403,12 @@ def run(tier, seed):
     for j, r in zip(fj, pmap(filebacked_case, fj, seed=seed)):
         for cls, what in r["bad"]:
             rep.add(Violation(cls, what, {"family": "filebacked", "args": list(j)}))
-    extra_cov = {"file_backed_cases": len(fj), "memory_lattice": {"dt": LATTICE_DTS, "steps": [1, 6 if tier == "quick" else 12], "given_as": ["dkmax", "tcut"],
+    vj = [(cp, dl, e) for cp in ("sz", "sx") for dl in (0.6, 0.85) for e in EPSRELS]
+    vres = pmap(revival_case, vj, seed=seed)
+    for j, r in zip(vj, vres):
+        for cls, what in r["bad"]:
+            rep.add(Violation(cls, what, {"family": "revival", "args": list(j)}))
+    extra_cov = {"revival_cases": {"cases": len(vj), "min_bath_effect": min(r["eff"] for r in vres)}, "file_backed_cases": len(fj), "memory_lattice": {"dt": LATTICE_DTS, "steps": [1, 6 if tier == "quick" else 12], "given_as": ["dkmax", "tcut"],
                                     "cases": len(lj), "min_memory_cutoff_effect": min(r["eff"] for r in lres),
                                     "max_dev": max(r.get("dev", 0.0) for r in lres if not r["bad"]) if any(not r["bad"] for r in lres) else None},
                  "pulse_family": {"cases": len(pj), "min_pulse_effect": min(r["eff"] for r in pres),
@@ -473,9 +507,9 @@ def run(tier, seed):
 
 
 def replay(rp):
-    if rp.get("family") in ("lattice", "pulse", "filebacked"):
+    if rp.get("family") in ("lattice", "pulse", "filebacked", "revival"):
         a = rp["args"]
-        r = {"lattice": lattice_case, "pulse": pulse_case, "filebacked": filebacked_case}[rp["family"]](tuple(a))
+        r = {"lattice": lattice_case, "pulse": pulse_case, "filebacked": filebacked_case, "revival": revival_case}[rp["family"]](tuple(a))
         return {"obs": [b[0] for b in r["bad"]], "violation": r["bad"][0][0] if r["bad"] else None}
     c = dict(rp)
     c["mem"] = list(c["mem"])
